@@ -1,5 +1,8 @@
 """C16 — hash functions equal the standards for every message and update pattern.
-Engine `hash`: md5.c sha1.c sha256.c sha512_256.c (+ microhttpd_ws/sha1.c)."""
+Engine `hash`: md5.c sha1.c sha256.c sha512_256.c (+ microhttpd_ws/sha1.c).
+Translators: gen_hash (step tables by instrumented execution), gen_hash_casts (integer widths: clang AST).
+Harnesses: h_hash.c (16 misaligned replicas, ASan/UBSan), h_hash_huge.c (one update call of >= 2^31 bytes),
+a cut-out of the SHA-512/256 counter statements.  VERIF_C16_HUGE=0 skips the huge calls (debugging only)."""
 import hashlib, json, os, re, subprocess, tempfile, time
 import vlib, extract
 
@@ -813,8 +816,8 @@ def huge_plan(rng, alg, tier, boost):
             plan += [(7, 1, T32 + 5), (7, 0, T31 + B - 7)]
         return plan
     plan = []
-    for k in (1, 7, B - 1):
-        for d in sorted({0, 5, B - k - 1, B - k, B}):
+    for k, ds in ((7, {0, 5, B - 7 - 1, B - 7, B}), (1, {0, B - 2, B - 1}), (B - 1, {0, 1, B})):
+        for d in sorted(ds):   # d = B-k-1 / B-k: the low 32 bits just miss / just fill the free space of the buffer
             plan.append((k, {(7, 5): 1, (1, 0): 3}.get((k, d), 0), T32 + d))
     for d in (-1, 0, B - 7 - 1, B - 7):
         plan.append((7, 0, T31 + d))
@@ -877,7 +880,8 @@ class Spec:
         "md5_chunks", "md5_reuse", "md5_table_is_standard",
         "sha512_256_chunks", "sha512_256_reuse", "sha512_256_counter", "sha512_256_table_is_standard",
         "sha1_chunks", "sha1_reuse", "ws_sha1_chunks", "ws_sha1_reuse", "sha1_table_is_standard",
-        "no_narrowing_in_control_flow")]
+        "no_narrowing_in_control_flow", "finish_length_encoding_sha256", "finish_length_encoding_sha1",
+        "finish_length_encoding_ws_sha1", "finish_length_encoding_md5", "finish_length_encoding_sha512_256")]
     trusted_base = ["Lean 4 kernel", "axioms: propext, Classical.choice, Quot.sound at most (audited per theorem)",
                     "hand-written specifications lean/Mhd/Model/Hash/Spec{Md5,Sha1,Sha256,Sha512}.lean + the padding frame "
                     "Spec.Hash in Model/Hash/MD.lean (RFC 1321 / FIPS 180-4 transcriptions; validated on the published "
@@ -886,13 +890,20 @@ class Spec:
                     "sigma/Ch/Maj/rotate functions, SHA-512/256 counter; tied to the C files by the regenerated step tables, "
                     "IVs and sizes (tools/props/C16.py: step macros re-defined as recorders, the transform executed) and by "
                     "this run's correspondence",
-                    "harness/h_hash.c, gcc, ASan/UBSan (alignment)",
+                    "harness/h_hash.c, gcc, ASan/UBSan (alignment); harness/h_hash_huge.c (no sanitizer, -O2) for single update "
+                    "calls of 2^31..2^32+128 bytes",
+                    "clang-14 JSON AST + its translation to Mhd.Hash.CExpr in tools/props/C16.py (extract_casts): which conversions "
+                    "to a narrower integer type exist in the update/finish functions and what their operands are; the bound "
+                    "analysis itself (Mhd.Hash.CExpr.ub) is proved sound in Lean",
                     "Python hashlib, and a pure-Python transcription of the standards for the byte-counter cases, as independent references"]
     assumptions = ["configured build: little-endian, !MHD_FAVOR_SMALL_CODE, 64-bit size_t",
                    "which unrolled block runs for misaligned input is modelled (MD5 reads X[] after a memcpy); that a "
                    "misaligned pointer is never dereferenced as a word is established by the run (all 16 misalignments of "
                    "data and digest under UBSan -fsanitize=alignment), not by the theorems",
                    "SHA-512/256: each single update call is shorter than 2^64 bytes (size_t)",
+                   "the model's natural-number `length` stands for the C size_t: justified by no_narrowing_in_control_flow "
+                   "(regenerated list of narrowing conversions, all value-preserving) and by running single calls of >= 2^32 "
+                   "bytes on the real code against hashlib; the Lean model itself is not executed on 4 GiB inputs",
                    "messages of 2^61 bytes and more are outside the standards (SHA-1, SHA-256); the specifications use the "
                    "low 64 bits of the bit length there, and so does the code"]
     algs = [a for a in ALGS if a in os.environ.get("VERIF_C16_ALGS", ",".join(ALGS)).split(",")]
